@@ -160,14 +160,18 @@ pub(crate) async fn forward(rx: &mut super::Receiver, tx: &mut super::Sender) ->
 
             // Forwarding sender closed.
             Event::Closed => {
-                // The receiver was dropped: nothing that is forwarded from now on will be processed.
-                // End forwarding, so that the sending side learns of the drop rather than of a graceful close.
-                if tx.remote_closed() == Some(false) {
-                    return Err(ForwardError::Send(SendError::Closed { gracefully: false }));
+                match tx.remote_closed() {
+                    // The receiver was closed gracefully and still processes what has been sent.
+                    Some(true) => {
+                        rx.close().await;
+                        closed = true;
+                    }
+                    // The receiver was dropped: nothing that is forwarded from now on will be processed.
+                    // End forwarding, so that the sending side learns of the drop rather than of a graceful close.
+                    Some(false) => return Err(ForwardError::Send(SendError::Closed { gracefully: false })),
+                    // The outgoing multiplexer has terminated.
+                    None => return Err(ForwardError::Send(SendError::ChMux)),
                 }
-
-                rx.close().await;
-                closed = true;
             }
         }
     }
